@@ -231,7 +231,7 @@ type rendered struct {
 	perr error
 }
 
-func newEngine(env map[string]any, text string) *engine {
+func newEngine(env any, text string) *engine {
 	return &engine{t: vuego.New(vuego.WithFuncs(funcMapFor(text))).Fill(env), n: 1}
 }
 
@@ -392,7 +392,7 @@ func check(c Case) error {
 			pos = allExprPos
 		}
 		its := c.iterations(env)
-		eng := newEngine(env, c.Text())
+		eng := newEngine(dataOf(c.Env, env), c.Text())
 		for j, it := range its {
 			if err := checkValue(c, it.env, eng, pos, j, its); err != nil {
 				if it.note != "" {
@@ -406,7 +406,7 @@ func check(c Case) error {
 		if len(pos) == 0 {
 			pos = pipePos
 		}
-		return checkValue(c, env, newEngine(env, c.Text()), pos, 0, []iteration{{env: env}})
+		return checkValue(c, env, newEngine(dataOf(c.Env, env), c.Text()), pos, 0, []iteration{{env: env}})
 	case "err":
 		if len(pos) == 0 {
 			pos = pipePos
@@ -760,6 +760,7 @@ func TestProp(t *testing.T) {
 	// every function x parameter/argument pairing, every error kind x function
 	shard, shards := run.Shard()
 	enum := append(append(append(g.enumerate(), g.enumSigs()...), g.enumScopes()...), g.enumSpellings()...)
+	enum = append(enum, g.enumStruct()...)
 	okAll := true
 	for i, c := range enum {
 		if i%shards != shard {
